@@ -1,3 +1,7 @@
 import FP.Props.C11
 #print axioms FP.Props.C11.levels_as_specified
 #print axioms FP.Props.C11.tight_alternatives_first
+#print axioms FP.Props.C11.table_ok
+#print axioms FP.Props.C11.minimal_rendering_roundtrip
+#print axioms FP.Props.C11.rendering_in_context
+#print axioms FP.Props.C11.trailing_rejected
